@@ -289,14 +289,68 @@ def explain_edge(fn, p, s, depth=0):
     return '%s in %s' % (txt, vals)
 
 
-def direct_guards(fn, b, depth=0):
-    """Readable conditions of the branch edges block b is directly control-dependent on."""
+_NEG = {'Lt': 'Ge', 'Ge': 'Lt', 'Le': 'Gt', 'Gt': 'Le', 'Eq': 'Ne', 'Ne': 'Eq'}
+_SWAP = {'Lt': 'Gt', 'Gt': 'Lt', 'Le': 'Ge', 'Ge': 'Le', 'Eq': 'Eq', 'Ne': 'Ne'}
+
+
+def _split2(body):
+    """Split 'A,B' at the top-level comma."""
+    depth = 0
+    for i, ch in enumerate(body):
+        if ch in '([{':
+            depth += 1
+        elif ch in ')]}':
+            depth -= 1
+        elif ch == ',' and depth == 0:
+            return body[:i], body[i + 1:]
+    return None
+
+
+def guard_variants(g):
+    """Equivalent spellings of a branch condition: `a >= b` taken is `a < b` not taken is `b <= a` taken ...  Rules match
+    guards with patterns; returning every spelling keeps them independent of how the source happened to write a test."""
+    out = [g]
+    for pol, truth in ((' not in [0]', True), (' in [0]', False)):
+        if not g.endswith(pol):
+            continue
+        body = g[:-len(pol)]
+        if body.startswith('Not(') and body.endswith(')'):
+            out += guard_variants(body[4:-1] + (' in [0]' if truth else ' not in [0]'))
+            break
+        op = body[:2]
+        if op in _NEG and body[2:3] == '(' and body.endswith(')'):
+            ab = _split2(body[3:-1])
+            if ab:
+                a, b = ab
+                flip = ' in [0]' if truth else ' not in [0]'
+                out.append('%s(%s,%s)%s' % (_NEG[op], a, b, flip))
+                out.append('%s(%s,%s)%s' % (_SWAP[op], b, a, pol))
+                out.append('%s(%s,%s)%s' % (_NEG[_SWAP[op]], b, a, flip))
+        break
+    seen = []
+    for x in out:
+        if x not in seen:
+            seen.append(x)
+    return seen
+
+
+def _expand(gs):
+    out = []
+    for g in gs:
+        for v in guard_variants(g):
+            if v not in out:
+                out.append(v)
+    return out
+
+
+def direct_guards(fn, b, depth=0, variants=True):
+    """Readable conditions of the branch edges block b is directly control-dependent on (with equivalent spellings)."""
     out = []
     for (p, s) in sorted(fn.control_deps().get(b, ())):
         e = explain_edge(fn, p, s, depth)
         if e:
             out.append(e)
-    return out
+    return _expand(out) if variants else out
 
 
 def all_guards(fn, b):
@@ -305,10 +359,10 @@ def all_guards(fn, b):
         e = explain_edge(fn, p, s)
         if e:
             out.append(e)
-    return out
+    return _expand(out)
 
 
-def dom_guards(fn, b):
+def dom_guards(fn, b, variants=True):
     """Readable conditions of branch edges (p,s) where s dominates b and p is s's only
     forward predecessor: conditions that held on every path when b was last entered."""
     out = []
@@ -319,4 +373,4 @@ def dom_guards(fn, b):
         e = explain_edge(fn, preds[0], s)
         if e:
             out.append(e)
-    return out
+    return _expand(out) if variants else out
